@@ -44,17 +44,24 @@ type tierCfg struct {
 	streamN                 string // MerkleStream<streamN>.cfg: exhaustive small-sector model of the streaming verifier
 	streamStates            int64
 	nStreamLong, nStreamRnd int
+	// MerkleLarge<largeCfg>.cfg and its constants, mirrored here for the independent state count
+	largeCfg     string
+	largeKs      []int
+	largeD       int
+	largeBatches []int
 }
 
 func cfgFor(thorough bool) tierCfg {
 	if thorough {
 		return tierCfg{rangeN: 56, freeN: 11, freePermK: 4, appendN: 128, appendK: 6, writes: [][3]int{{5, 3, 2}, {3, 4, 3}},
 			xcheckN: 16, nSectors: 4, nRandomRanges: 400, primN: 200000, minCorrupt: 200,
-			streamN: "16", nStreamLong: 60, nStreamRnd: 200}
+			streamN: "16", nStreamLong: 60, nStreamRnd: 200,
+			largeCfg: "T", largeKs: []int{15, 16, 17, 18}, largeD: 2, largeBatches: []int{1, 2, 3, 5, 8}}
 	}
 	return tierCfg{rangeN: 32, freeN: 8, freePermK: 4, appendN: 64, appendK: 4, writes: [][3]int{{4, 3, 2}},
 		xcheckN: 16, nSectors: 3, nRandomRanges: 36, primN: 20000, minCorrupt: 50,
-		streamN: "8", nStreamLong: 9, nStreamRnd: 24}
+		streamN: "8", nStreamLong: 9, nStreamRnd: 24,
+		largeCfg: "Q", largeKs: []int{16, 17}, largeD: 1, largeBatches: []int{1, 2, 5}}
 }
 
 func parseLines[T any](c *vlib.Ctx, res *vlib.TLCResult, tag string) []T {
@@ -325,6 +332,67 @@ func streamParams(r *rand.Rand, cfg tierCfg) (out []streamParam) {
 	return
 }
 
+// largeShape mirrors the case sets of MerkleLarge.tla (Counts, Marks, FreedLists): the sizes, and per size
+// the number of range starts, of ranges and of freed index lists.
+func largeShape(cfg tierCfg) (counts []int, starts, ranges, frees map[int]int) {
+	starts, ranges, frees = map[int]int{}, map[int]int{}, map[int]int{}
+	seen := map[int]bool{}
+	for _, k := range cfg.largeKs {
+		p := 1 << uint(k)
+		for _, n := range []int{p - 1, p, p + 1, p + 3, p + p/16 + 3} {
+			if !seen[n] {
+				seen[n] = true
+				counts = append(counts, n)
+			}
+		}
+	}
+	sort.Ints(counts)
+	for _, n := range counts {
+		top := 1
+		for top*2 < n {
+			top *= 2
+		}
+		marks := map[int]bool{}
+		for _, a := range []int{0, LPS, n, top, n / 3} {
+			for d := -cfg.largeD; d <= cfg.largeD; d++ {
+				if x := a + d; x >= 0 && x <= n {
+					marks[x] = true
+				}
+			}
+		}
+		for s := range marks {
+			if s < n {
+				starts[n]++
+				for e := range marks {
+					if e > s {
+						ranges[n]++
+					}
+				}
+			}
+		}
+		lists := map[string]bool{}
+		for _, q := range [][]int{{0}, {LPS - 1}, {LPS}, {n - 1}, {top}, {top - 1}, {LPS - 1, LPS}, {LPS, LPS - 1}, {n - 1, 0}, {n - 1, n - 2},
+			{0, LPS, n - 1}, {LPS + 1, 1, LPS - 2}, {n - 2, LPS, 0, n - 1}} {
+			ok := true
+			for i, x := range q {
+				if x < 0 || x >= n {
+					ok = false
+				}
+				for _, y := range q[:i] {
+					if x == y {
+						ok = false
+					}
+				}
+			}
+			if ok {
+				lists[fmt.Sprint(q)] = true
+			}
+		}
+		frees[n] = len(lists)
+	}
+	return
+}
+
 func main() {
 	if len(os.Args) >= 4 && os.Args[1] == "-goside" {
 		runSide(os.Args[2], os.Args[3])
@@ -332,10 +400,11 @@ func main() {
 	}
 	c := vlib.Start("C16")
 	cfg := cfgFor(c.Thorough)
-	c.Rule("TLC enumerates: every (n<=N,s,e) sector-root range; every non-empty set of freed sectors of n<=N (<=PermK indices in every order, larger ones in 3 orders); every (n<=N, batch<=K) append; every admissible list of <=LW mixed write actions on n<=N sectors; sector level: boundary and seeded random (s,e) leaf ranges and leaf counts handed to TLC in a params file. One case = one such tuple with the proof and roots printed by TLC, executed on the real builders/verifiers/root functions once per CPU path. Streaming verifier: TLC checks exhaustively on a sector of 8 (thorough: 16) leaves that the transcription of ReadFrom+Verify accepts exactly the honest (claimed range, data read, proof) for every claimed range, every stream length and every foreign leaf; at sector level every honest range with both ends within 8 leaves of 0, of 32768 or of 65536 (plus seeded long and random ones) is verified under every claimed end and start altered by up to 8, with streams cut at every subtree boundary of the claimed walk, inside a leaf, and over-long, with the model's verdict printed by TLC per case (non-trivial: every such case except the unaltered honest one). Non-trivial = distinct case whose expected proof has at least one hash and on which at least one corruption was applied (free/write cases: every case; root cases: more than one leaf).")
+	c.Rule("TLC enumerates: every (n<=N,s,e) sector-root range; every non-empty set of freed sectors of n<=N (<=PermK indices in every order, larger ones in 3 orders); every (n<=N, batch<=K) append; every admissible list of <=LW mixed write actions on n<=N sectors; sector level: boundary and seeded random (s,e) leaf ranges and leaf counts handed to TLC in a params file. One case = one such tuple with the proof and roots printed by TLC, executed on the real builders/verifiers/root functions once per CPU path. Streaming verifier: TLC checks exhaustively on a sector of 8 (thorough: 16) leaves that the transcription of ReadFrom+Verify accepts exactly the honest (claimed range, data read, proof) for every claimed range, every stream length and every foreign leaf; at sector level every honest range with both ends within 8 leaves of 0, of 32768 or of 65536 (plus seeded long and random ones) is verified under every claimed end and start altered by up to 8, with streams cut at every subtree boundary of the claimed walk, inside a leaf, and over-long, with the model's verdict printed by TLC per case (non-trivial: every such case except the unaltered honest one). Large sector-root trees (a contract is not bounded by the 65536 leaves of a sector): TLC enumerates, for every sector count n within 3 of a power of two 2^k and the ragged count 2^k+2^(k-4)+3 (k = 16, 17; thorough: 15..18), every range [s,e) whose ends lie within D=1 (thorough 2) of 0, of index 65536, of n, of the top split of the tree and of n/3, append batches and freed index lists drawn from the same anchors, with the proofs as compact terms and its transcribed verifiers run on intervals; each is executed on the real builders and verifiers over synthetic roots. Non-trivial = distinct case whose expected proof has at least one hash and on which at least one corruption was applied (free/write cases: every case; root cases: more than one leaf).")
 	c.Assume("hash terms are injective by construction: everything TLC proves is relative to collision resistance of BLAKE2b")
 	c.Assume("trusted base: the term evaluator of harness/cmd/c16/term.go (N(l,r)=SumPair, L<i>=leaf, R(i,j)=plain recursive root; cross-checked against expanded TLC terms for every 0<=i<j<=16), blake2b.SumLeaf/SumPair as the hash (compared with golang.org/x/crypto blake2b-256 of prefix||block)")
 	c.Assume("soundness is claimed only with the true element count handed to the verifier")
+	c.Assume("large sector-root trees: the freed-list patch printed by TLC is applied to the list of roots by the harness and its root computed with the plain recursive definition (term.go plainRootOf, cross-checked against R(0,n))")
 	c.Assume("MaxHeight=24 accumulator slots modelled (code: 64); INF=2^30 stands for MaxUint64")
 
 	if c.Replay != "" {
@@ -569,6 +638,41 @@ func main() {
 		}
 		c.Cov("tlc_stream_model", map[string]any{"sector_leaves": ns, "max_index_alteration": d, "claimed_vs_honest_pairs": l4, "verifications": variants, "of_which_accept": acc})
 	}
+	// 1h. the sector-root tree at large sizes: counts around 2^16 = LeavesPerSector and larger powers of two
+	largeJob := func() {
+		counts, starts, ranges, frees := largeShape(cfg)
+		want := int64(1 + len(counts))
+		var nr, na, nf int
+		for _, n := range counts {
+			want += int64(starts[n] + ranges[n] + len(cfg.largeBatches) + frees[n])
+			nr += ranges[n]
+			na += len(cfg.largeBatches)
+			nf += frees[n]
+		}
+		res := tlc("MerkleLarge", "MerkleLarge"+cfg.largeCfg+".cfg", want, "large sector-root trees")
+		exp.LRange = parseLines[LRangeCase](c, res, "LR")
+		exp.LAppend = parseLines[LAppendCase](c, res, "LA")
+		exp.LFree = parseLines[LFreeCase](c, res, "LF")
+		if len(exp.LRange) != nr || len(exp.LAppend) != na || len(exp.LFree) != nf {
+			c.Fatal("large trees: %d+%d+%d cases printed, expected %d+%d+%d", len(exp.LRange), len(exp.LAppend), len(exp.LFree), nr, na, nf)
+		}
+		var verified, above int
+		sides := map[string]int{}
+		for _, x := range exp.LRange {
+			if x.Verified {
+				verified++
+			}
+			if x.N > LPS {
+				above++
+				sides[x.Side]++
+			}
+		}
+		if verified == 0 || above == 0 || sides["left"] == 0 || sides["across"] == 0 || sides["right"] == 0 {
+			c.Fatal("large trees: vacuous case set (%d ranges verified in the model, %d above 65536 roots, sides %v)", verified, above, sides)
+		}
+		c.Cov("tlc_large_tree_cases", map[string]any{"sector_root_counts": counts, "ranges": nr, "ranges_verified_by_transcribed_verifier_in_model": verified,
+			"ranges_in_trees_above_65536_roots_by_side_of_index_65536": sides, "appends": na, "frees": nf})
+	}
 	// three TLC processes at a time (4 workers each)
 	var tw sync.WaitGroup
 	var tmu sync.Mutex
@@ -582,7 +686,7 @@ func main() {
 			tmu.Unlock()
 		}
 	}
-	for _, grp := range [][]func(){{timed("range", rangeJob), timed("stream_model", streamJob)}, {timed("free", freeJob)},
+	for _, grp := range [][]func(){{timed("range", rangeJob), timed("stream_model", streamJob)}, {timed("free", freeJob), timed("large", largeJob)},
 		{timed("xcheck", xcheckJob), timed("append", appendJob), timed("write", writeJob), timed("sector", sectorJob)}} {
 		tw.Add(1)
 		go func(grp []func()) {
@@ -616,6 +720,22 @@ func main() {
 			return a.N < b.N
 		}
 		return fmt.Sprint(a.As) < fmt.Sprint(b.As)
+	})
+
+	sort.Slice(exp.LRange, func(i, j int) bool {
+		a, b := exp.LRange[i], exp.LRange[j]
+		return a.N < b.N || a.N == b.N && (a.S < b.S || a.S == b.S && a.E < b.E)
+	})
+	sort.Slice(exp.LAppend, func(i, j int) bool {
+		a, b := exp.LAppend[i], exp.LAppend[j]
+		return a.N < b.N || a.N == b.N && a.K < b.K
+	})
+	sort.Slice(exp.LFree, func(i, j int) bool {
+		a, b := exp.LFree[i], exp.LFree[j]
+		if a.N != b.N {
+			return a.N < b.N
+		}
+		return fmt.Sprint(a.Freed) < fmt.Sprint(b.Freed)
 	})
 
 	// 2. the Go side, once per configuration
@@ -730,6 +850,23 @@ func main() {
 					c.Infra("vacuity: streaming-verifier class %s was exercised only %d times (GODEBUG=%q)", k, r.Counts[k], r.GODEBUG)
 				}
 			}
+			// the sector-root tree is not bounded by the size of a sector: every class of the large family
+			for _, k := range []string{"accept.largerange", "accept.largerange.own", "accept.largeappend", "accept.largeappend_v2", "accept.largefree",
+				"large.range.above_65536.left", "large.range.above_65536.across", "large.range.above_65536.right", "large.range.exactly_65536.left",
+				"large.range.below_65536.left", "large.range.verified_in_model", "large.append.above_65536", "large.free.above_65536", "large.roots.above_65536"} {
+				if r.Counts[k] < 3 {
+					c.Infra("vacuity: large sector-root trees: class %s was exercised only %d times (GODEBUG=%q)", k, r.Counts[k], r.GODEBUG)
+				}
+			}
+			for fam, ks := range map[string][]string{"largerange": {"proofhash", "datum", "shorter", "longer", "index", "root"},
+				"largeappend": {"proofhash", "datum", "shorter", "oldroot", "newroot"},
+				"largefree":   {"proofhash", "datum", "shorter", "longer", "oldroot", "newroot"}} {
+				for _, k := range ks {
+					if n := r.Counts["corrupt."+fam+"."+k+".rejected"]; n < 10 {
+						c.Infra("vacuity: corruption %s/%s was applied and rejected only %d times (GODEBUG=%q)", fam, k, n, r.GODEBUG)
+					}
+				}
+			}
 			if r.Counts["primitives.blocks"] == 0 || r.Counts["roots.sector"] == 0 || r.Counts["roots.metaroot"] == 0 || r.Counts["xcheck.terms"] == 0 {
 				c.Infra("vacuity: a root/primitive class was never exercised (GODEBUG=%q)", r.GODEBUG)
 			}
@@ -768,6 +905,39 @@ func main() {
 				}
 			}
 			c.Cov("selftest_expected_side_mutation", map[string]any{"mutated_case": fmt.Sprintf("n=%d [%d,%d): proof hashes 0 and 1 exchanged", mut.N, mut.S, mut.E), "detected": found})
+		}
+	}
+	// the same for the large sector-root trees: the expected proof of a range left of index 65536 in a tree of
+	// more than 65536 roots loses its last hash (the subtree behind index 65536)
+	{
+		var mut *LRangeCase
+		for i := range exp.LRange {
+			x := exp.LRange[i]
+			if x.N > LPS && x.Side == "left" && len(x.Proof) >= 2 {
+				x.Proof = append([]string(nil), x.Proof[:len(x.Proof)-1]...)
+				mut = &x
+				break
+			}
+		}
+		if mut == nil {
+			c.Infra("selftest: no range left of index 65536 in a tree of more than 65536 roots")
+		} else {
+			cr := &childRun{label: "selftest-large"}
+			runChild(c, cr, &Expect{Seed: c.Seed, Tier: c.Tier, LRange: []LRangeCase{*mut}}, 2*time.Minute)
+			found := false
+			if cr.err != nil {
+				c.Infra("selftest: %v", cr.err)
+			} else {
+				for _, v := range cr.res.Viol {
+					if v.Key == "largerange-builder-differs-from-spec" {
+						found = true
+					}
+				}
+				if !found {
+					c.Infra("selftest: an expected proof without the subtree behind index 65536 (n=%d [%d,%d)) was not noticed", mut.N, mut.S, mut.E)
+				}
+			}
+			c.Cov("selftest_large_tree_expected_side_mutation", map[string]any{"mutated_case": fmt.Sprintf("n=%d [%d,%d): last proof hash (the subtree behind index 65536) removed", mut.N, mut.S, mut.E), "detected": found})
 		}
 	}
 	// the same for the streaming family: one expected verdict is flipped (an altered end index declared
@@ -874,6 +1044,26 @@ func replay(c *vlib.Ctx, cfg tierCfg) {
 		var x StreamCase
 		un(&x)
 		exp.Stream = []StreamCase{x}
+	case "largerange":
+		var x LRangeCase
+		un(&x)
+		exp.LRange = []LRangeCase{x}
+	case "largeappend":
+		var x LAppendCase
+		un(&x)
+		exp.LAppend = []LAppendCase{x}
+	case "largefree":
+		var x LFreeCase
+		un(&x)
+		exp.LFree = []LFreeCase{x}
+	case "largeroot":
+		var x struct {
+			N int `json:"n"`
+		}
+		if err := json.Unmarshal(f.Case, &x); err != nil {
+			c.Fatal("replay: %v", err)
+		}
+		exp.LRange = []LRangeCase{{N: x.N, S: 0, E: x.N, Root: fmt.Sprintf("R(0,%d)", x.N), Side: "across"}}
 	case "sectorroot":
 		exp.NSectors, exp.Only = hd.Sector+1, "sectorroots"
 	case "sectorcache":
